@@ -602,6 +602,14 @@ func genFmtCase(r *Rng) *fmtCase {
 	if hasLocal {
 		p.Types = append(p.Types, PType{Name: "Local", Kind: "s", Tags: []PTag{{"gengo:rec", []string{"false"}}}})
 	}
+	if r.Chance(7) {
+		// a rendering that is not Go: Execute must then fail (a file is written only when it parses) — judged by
+		// "whenever Execute returns without error, each generated file parses"
+		key := c01Gen + "@" + self + "@" + p.Types[r.Intn(nt)].Name
+		id++
+		s.Custom[key] = append(s.Custom[key], PItem{K: "block", S: fmt.Sprintf(Pick(r, []string{
+			"func Broken%d() {\n", "var = %d\n", "}} // %d\n", "func (x Broken%d() {}\n", "type T%d struct { a b c }\n", "const C%d = \"open\n"}), id)})
+	}
 	if r.Chance(50) {
 		p.Extra = append(p.Extra, pipeBase+"."+c01Gen+".go") // the output of an earlier, longer generation is in the way
 	}
@@ -693,7 +701,7 @@ func init() {
 				return genFmtCase(r)
 			},
 			BatchRun: fmtBatch, ShrinkBudget: 40, MaxShrinks: 6,
-			Rule: "one package per case (directory p0 / api / v1) in modules with go directives 1.12, 1.18–1.24, patch releases (1.21.0, 1.23.4, 1.24.2) and release candidates (1.21rc2, 1.24rc1), and five module paths (with and without a dot, versioned); 1–3 types each rendering 1–6 snippets (in a fifth of the cases some of the types then answer ErrSkip: what they rendered stays in the file) from a declaration grammar (functions with odd whitespace and semicolon-joined statements, documented functions with blank lines and trailing comments, single and grouped vars, consts, struct types with tags and methods, grouped types, detached line and block comments, references through PkgExpose to 12 std and module-local packages — as types, and as operands of a longer selector chain (method expressions) —, the package's own type); real Execute in child processes; compared: the written file with gofumpt∘SortImports∘parse applied to the model's assembled source (same library versions); oracle on the file: parses, opens with the generator comment, package clause, imports = referenced packages, declaration list = rendered declarations (printed spec by spec), gofmt and gofumpt fixed points",
+			Rule: "one package per case (directory p0 / api / v1) in modules with go directives 1.12, 1.18–1.24, patch releases (1.21.0, 1.23.4, 1.24.2) and release candidates (1.21rc2, 1.24rc1), and five module paths (with and without a dot, versioned); 1–3 types each rendering 1–6 snippets (in one case of fourteen one of the snippets is not Go — an unclosed brace, a stray token, an unterminated string: Execute must fail and write nothing; in a fifth of the cases some of the types then answer ErrSkip: what they rendered stays in the file) from a declaration grammar (functions with odd whitespace and semicolon-joined statements, documented functions with blank lines and trailing comments, single and grouped vars, consts, struct types with tags and methods, grouped types, detached line and block comments, references through PkgExpose to 12 std and module-local packages — as types, and as operands of a longer selector chain (method expressions) —, the package's own type); real Execute in child processes; compared: the written file with gofumpt∘SortImports∘parse applied to the model's assembled source (same library versions); oracle on the file: parses, opens with the generator comment, package clause, imports = referenced packages, declaration list = rendered declarations (printed spec by spec), gofmt and gofumpt fixed points",
 		},
 	}})
 }
